@@ -11,6 +11,7 @@ pub mod reqgen;
 pub mod respgen;
 pub mod report;
 pub mod rng;
+pub mod routelab;
 pub mod shutlab;
 pub mod util;
 pub mod wsref;
